@@ -18,6 +18,7 @@ pub mod rewrite;
 pub mod gen03;
 pub mod gen04;
 pub mod gen05;
+pub mod pmodel;
 pub mod gen06;
 pub mod gen17;
 
